@@ -698,6 +698,20 @@ pub fn c15(c: &mut Ctx, b: &Budget) {
             c.check("awp-exact", got.len() == want.len() && got.iter().zip(want.iter()).all(|(x, y)| x.is_identical_to(y)), "awp-exact", || shape(&orig));
             let decorated = want.iter().any(|a| !a.is_assertion());
             if decorated { c.count("branch:decorated-match"); }
+            // the typed lookups are the untyped lookup followed by typed extraction: same verdict, same value - also when the matching
+            // assertion carries assertions of its own
+            macro_rules! typed_agrees { ($ty:ty, $name:expr) => {{
+                let direct = guarded(|| orig.extract_object_for_predicate::<$ty>(pe.clone()).ok());
+                let composed = guarded(|| orig.object_for_predicate(pe.clone()).ok().and_then(|o| o.extract_subject::<$ty>().ok()));
+                c.check("typed-lookup-agrees", direct == composed, "typed-lookup-differs", || format!("extract_object_for_predicate::<{}> gave {:?} but object_for_predicate + extract_subject gives {:?} on {}", $name, direct, composed, shape(&orig)));
+                let opt = guarded(|| orig.extract_optional_object_for_predicate::<$ty>(pe.clone()).ok());
+                let composed_opt = guarded(|| orig.optional_object_for_predicate(pe.clone()).ok().and_then(|o| match o { Some(x) => x.extract_subject::<$ty>().ok().map(Some), None => Some(None) }));
+                c.check("typed-lookup-agrees", opt == composed_opt, "typed-lookup-differs", || format!("extract_optional_object_for_predicate::<{}> gave {:?}, composed {:?}", $name, opt, composed_opt));
+                let many = guarded(|| orig.extract_objects_for_predicate::<$ty>(pe.clone()).ok());
+                let composed_many = guarded(|| orig.objects_for_predicate(pe.clone()).iter().map(|o| o.extract_subject::<$ty>().ok()).collect::<Option<Vec<$ty>>>());
+                c.check("typed-lookup-agrees", many == composed_many, "typed-lookup-differs", || format!("extract_objects_for_predicate::<{}> gave {:?}, composed {:?}", $name, many, composed_many));
+            }}; }
+            typed_agrees!(String, "String"); typed_agrees!(u64, "u64"); typed_agrees!(bool, "bool");
             // single-result forms
             let r = guarded(|| orig.assertion_with_predicate(pe.clone()));
             match (&r, want.len()) {
